@@ -159,6 +159,44 @@ class _SimClock:
         return _current.sim.now if _current is not None else _t.monotonic()
 
 
+# ------------------------------------------------------------------------------------------------
+# stdlib seam: blocking queue reads.  A completion queue filled by done-callbacks is a natural way to
+# gather results; a get() on an empty queue would block the only running thread for ever, because
+# callbacks fire only while the event heap is driven.  While a simulation is installed, get() drives it.
+# ------------------------------------------------------------------------------------------------
+import _queue  # noqa: E402
+import queue as _queue_mod  # noqa: E402
+
+
+def _queue_wait(nonempty, block, timeout, what):
+    """True if the caller may now read; raises queue.Empty after a virtual-time timeout."""
+    ps = _current
+    if ps is None or not block or nonempty():
+        return
+    if not _timed_run(ps.sim, nonempty, timeout, what):
+        raise _queue_mod.Empty
+
+
+class SimAwareSimpleQueue(_queue.SimpleQueue):
+    def get(self, block=True, timeout=None):
+        _queue_wait(lambda: not self.empty(), block, timeout, "SimpleQueue.get")
+        return super().get(block, timeout)
+
+
+_orig_queue_get = _queue_mod.Queue.get
+
+
+def _sim_queue_get(self, block=True, timeout=None):
+    _queue_wait(lambda: self._qsize() > 0, block, timeout, "Queue.get")
+    return _orig_queue_get(self, block, timeout)
+
+
+def patch_blocking_queues():
+    """Idempotent; must run before the code under test is imported (`from queue import SimpleQueue`)."""
+    _queue_mod.SimpleQueue = SimAwareSimpleQueue
+    _queue_mod.Queue.get = _sim_queue_get
+
+
 class _SimEvent:
     """Drop-in for the waiter's threading.Event: wait() drives the event heap."""
 
